@@ -297,7 +297,7 @@ Proof.
   rewrite andb_false_r. reflexivity.
 Qed.
 
-(* as the code is: every operation except reorder_columns/keep_others is constant *)
+(* also before fix commit e8c17b3 (C17-F1): every operation except reorder_columns/keep_others was constant *)
 Definition not_keep_others (st : opstate) : bool :=
   match st with ReorderColumns _ _ true => false | _ => true end.
 
@@ -374,7 +374,7 @@ Proof.
   destruct (run_tables fx sts ts). reflexivity.
 Qed.
 
-(* ---- a list without messages constructs (repaired validate_input_data of remap_columns) *)
+(* ---- a list without messages constructs (validate_input_data of remap_columns since 6cfe711) *)
 
 Lemma ctor_check_ok fx st :
   fx_disjoint fx = true -> input_data_ok fx st = true -> ctor_check st = Ok st.
@@ -453,7 +453,7 @@ Definition ex_remap_overlap : json :=
                                    (k_map_list, JArr [JArr [JStr [49%N]; JStr [50%N]]]);
                                    (k_ignore_missing, JBool true)])]].
 
-(* record of the repaired defect: without the disjointness check the list
+(* record of the repaired defect C17-F7 (behaviour before fix commit 6cfe711): without the disjointness check the list
    passes validation and the constructor raises *)
 Lemma valid_constructs_refuted :
   validate no_fixes ex_remap_overlap = Ok true /\
@@ -1060,7 +1060,8 @@ Proof.
   - cbn [applicable do_op snd]. apply do_split_total.
 Qed.
 
-(* the four optional-parameter crashes and the group-numbering crash, as the code is *)
+(* RECORD of repaired defects: the optional-parameter crashes C17-F2 (before 192568b), C17-F3 (before b484e3c),
+   C17-F4 (before adebd46) and the group-numbering crash C17-F6 (before b5c611b); [no_fixes] is NOT the current code *)
 Definition s1 (c : N) : str := [c].
 Definition ex_factor_no_values : opstate := FactorColumn (s1 97) None None.
 Definition ex_factor_no_names : opstate := FactorColumn (s1 97) (Some [s1 49]) None.
@@ -1110,8 +1111,8 @@ Lemma former_witnesses_applicable :
   applicable ex_merge_gap ex_T3 = true.
 Proof. vm_compute. repeat split. Qed.
 
-(* with every optional parameter present (and no set_durations) the code as it
-   is runs to completion as well *)
+(* RECORD: also before the fix commits 192568b / b484e3c / b5c611b the code ran to completion when every
+   optional parameter was present (and without set_durations) *)
 Definition optionals_present (st : opstate) : bool :=
   match st with
   | FactorColumn _ (Some (_ :: _)) (Some (_ :: _)) => true
@@ -1161,9 +1162,9 @@ Definition event_schema : option schema :=
    entry that has only the keys the schema requires *)
 Definition event_fetch_safe : bool := is_ok (split_rows_event_fetch ex_event).
 
-(* With `event_params.get('copy_columns', [])` (repaired tree) every entry
+(* With `event_params.get('copy_columns', [])` (the current tree, since adebd46) every entry
    accepted by the new_events schema can be read.  The statement is guarded by
-   [event_fetch_safe] so that this file also compiles against the unrepaired
+   [event_fetch_safe] so that this file also compiles against a tree before adebd46
    tree, where the guard is false (see valid_runs_refuted_split_copy);
    Props/C17Now.v discharges the guard for the tree as it now is. *)
 Lemma split_event_fetch_total :
@@ -1200,10 +1201,42 @@ Definition ex_ops : list opstate :=
    ReorderColumns [s1 99; s1 122] true false].
 Lemma ex_ops_run :
   forallb (input_data_ok all_fixes) ex_ops = true /\
-  run_tables no_fixes ex_ops [ex_T1; ex_T1]
+  run_tables all_fixes ex_ops [ex_T1; ex_T1]
   = (ex_ops, [Ok {| cols := [s1 99; s1 122]; rows := [[CStr [122%N]; CStr [50%N]]] |};
               Ok {| cols := [s1 99; s1 122]; rows := [[CStr [122%N]; CStr [50%N]]] |}]).
 Proof. vm_compute. split; reflexivity. Qed.
+
+(* the current code on the operation whose state opstate_constant is about:
+   reorder_columns with keep_others over files with different extra columns,
+   from the JSON list through validate, the constructors and one dispatcher;
+   the operation keeps its column_order and the second file (no column c) runs *)
+Definition ex_reorder_json : json :=
+  JArr [JObj [(k_operation, JStr n_reorder_columns); (k_description, JStr [100%N]);
+              (k_parameters, JObj [(k_column_order, JArr [JStr [98%N]; JStr [97%N]]);
+                                   (k_ignore_missing, JBool false); (k_keep_others, JBool true)])]].
+
+Lemma ex_reorder_now :
+  validate all_fixes ex_reorder_json = Ok true /\
+  parse_operations ex_reorder_json = Ok [ex_reorder] /\
+  remodel all_fixes ex_reorder_json [ex_T1; ex_T2; ex_T1]
+  = Ok (Ran [ex_reorder]
+          [Ok {| cols := [[98%N]; [97%N]; [99%N]];
+                 rows := [[CStr [120%N]; CStr [49%N]; CStr s_na]; [CStr [121%N]; CStr [50%N]; CStr [122%N]]] |};
+           Ok {| cols := [[98%N]; [97%N]; [100%N]]; rows := [[CStr [120%N]; CStr [49%N]; CStr [113%N]]] |};
+           Ok {| cols := [[98%N]; [97%N]; [99%N]];
+                 rows := [[CStr [120%N]; CStr [49%N]; CStr s_na]; [CStr [121%N]; CStr [50%N]; CStr [122%N]]] |}]).
+Proof. vm_compute. repeat split. Qed.
+
+(* RECORD (behaviour before fix commit e8c17b3): the same run changed the
+   operation's column_order and made the second file fail *)
+Lemma ex_reorder_before_e8c17b3 :
+  remodel no_fixes ex_reorder_json [ex_T1; ex_T2]
+  = Ok (Ran [ReorderColumns [[98%N]; [97%N]; [99%N]] false true]
+          [Ok {| cols := [[98%N]; [97%N]; [99%N]];
+                 rows := [[CStr [120%N]; CStr [49%N]; CStr s_na]; [CStr [121%N]; CStr [50%N]; CStr [122%N]]] |};
+           Exn ValueError]).
+Proof. vm_compute. reflexivity. Qed.
+
 
 (* ------------------------------------------------------------ whole lists *)
 
